@@ -1,3 +1,6 @@
 import Rp2.Props.C07
 #print axioms Rp2.C07.final_is_flows
 #print axioms Rp2.C07.reported_with_allow_negative
+#print axioms Rp2.C07.model_flows
+#print axioms Rp2.C07.model_final
+#print axioms Rp2.C07.model_accounts_once
